@@ -178,6 +178,10 @@ type HostilePlan struct {
 	// Churn > 0: another kind of run - that many well-behaved connections, one
 	// after the other, under one long-lived context (see executeChurn).
 	Churn int `json:"churn,omitempty"`
+	// WriteOn > 0: the backend side keeps calling Write after Write has returned
+	// an error - that many further calls of 8 KiB each - and what the Conn holds
+	// afterwards is measured.
+	WriteOn int `json:"write_on,omitempty"`
 }
 
 type HMut struct {
@@ -520,6 +524,29 @@ func executeHostile(t *testing.T, prop string, seed uint64, p *HostilePlan) *cor
 					res.Fail(prop, "io-contract", "Write return values violate io.Writer", "n=%d of %d err=%v", wn, n, werr)
 				}
 				if werr != nil {
+					if p.WriteOn > 0 {
+						// a caller that does not stop at the first error
+						junk := make([]byte, 8192)
+						for i := range junk {
+							junk[i] = byte(i)
+						}
+						runtime.GC()
+						var m0, m1 runtime.MemStats
+						runtime.ReadMemStats(&m0)
+						for k := 0; k < p.WriteOn; k++ {
+							calls++
+							if _, e := conn.Write(junk); e == nil {
+								break // accepted after all: the ordinary rules apply again
+							}
+						}
+						runtime.GC()
+						runtime.ReadMemStats(&m1)
+						if grew := int64(m1.HeapAlloc) - int64(m0.HeapAlloc); grew > 8*(5+16384+2048) {
+							res.Fail(prop, "balloon", "Write keeps what it refuses: memory held grows with every further call after an error", "%d further Write calls of 8 KiB after the first error: live heap grew by %d bytes", p.WriteOn, grew)
+						}
+						runtime.KeepAlive(conn)
+						res.Probe("writes_after_a_write_error")
+					}
 					return
 				}
 				pos += n
@@ -714,6 +741,18 @@ func genC08(seed uint64, idx int) *Plan {
 			h.Tail = append(h.Tail, HRec{Kind: "rec", Type: 22, Len: 16384})
 		}
 		h.Back, h.Chunks = nil, nil
+		return &Plan{Kind: "hostile", Seed: seed, Hostile: h}
+	}
+	if idx%50 == 47 && !b.NoECH && !b.Grease {
+		// accepted hello; the backend's first record has an impossible length (or
+		// is a ServerHello that does not parse), and the backend side does not stop
+		// at the error
+		h.NoKeys, h.Muts, h.Tail, h.Chunks, h.BackFirst = false, nil, nil, nil, true
+		h.Back = []HRec{{Kind: "rec", Type: 22, Len: 40, Lie: 40000}}
+		if r.IntN(2) == 0 {
+			h.Back = []HRec{{Kind: "shmut", A: 7*(1+r.IntN(50)) + 2}} // truncated ServerHello, lengths fixed
+		}
+		h.WriteOn = 600
 		return &Plan{Kind: "hostile", Seed: seed, Hostile: h}
 	}
 	if idx%50 == 21 {
